@@ -411,13 +411,13 @@ func runC05(e *Env) {
 		e.R.Trace(1)
 		e.R.Transition(1)
 		e.R.NonTrivial("kc" + fmt.Sprint(i))
-		if i%9 == 0 || e.Thorough {
+		if i%2 == 0 || e.Thorough {
 			cc := kcases[i]
 			cc.Path = "cli"
 			c05Eval(e, &cc, true)
 		}
 	})
-	e.R.AddPart(ev.Part{Name: "key-change-placements", Enumerated: "4-element progression (chord, chord with bass, rest, chord) x every non-empty subset of positions carrying {key=..} x 6^3 key triples from {C,Cb,F#,Am,Ebm,G#m}; plus the complete 28 x 28 graph of converter-scale changes (state = scale in force, every edge replayed as [chord][chord+key change][chord]); real binary for every 9th (quick) / all (thorough)", Executions: int64(len(kcases)), States: 28, Transitions: int64(len(kcases)), Exhaustive: true})
+	e.R.AddPart(ev.Part{Name: "key-change-placements", Enumerated: "4-element progression (chord, chord with bass, rest, chord) x every non-empty subset of positions carrying {key=..} x 6^3 key triples from {C,Cb,F#,Am,Ebm,G#m}; plus the complete 28 x 28 graph of converter-scale changes (state = scale in force, every edge replayed as [chord][chord+key change][chord]); real binary for every 2nd (quick) / all (thorough)", Executions: int64(len(kcases)), States: 28, Transitions: int64(len(kcases)), Exhaustive: true})
 
 	// (c) transposition
 	var tc []c05Transpose
